@@ -24,6 +24,7 @@ import attrs  # noqa: E402
 import numpy as np  # noqa: E402
 from ibicus.debias import DeltaChange  # noqa: E402
 from ibicus.debias._debiaser import Debiaser  # noqa: E402
+from ibicus.debias._running_window_debiaser import RunningWindowDebiaser  # noqa: E402
 
 M_ERR, M_ERR2, M_LONG, M_ONE = 99, 98, 97, 96
 # further *shapes* of exceptions a user-defined debiaser realistically raises (all derive from Exception; classes derived
@@ -105,6 +106,20 @@ class GridProbeDC(DeltaChange):
         return encode(obs, cm_hist, cm_future, shift)
 
 
+@attrs.define(slots=False)
+class WindowProbe(RunningWindowDebiaser):
+    """user-defined running-window debiaser: raises when it meets the marker value inside a window's cm_future sample"""
+
+    @classmethod
+    def from_variable(cls, variable, **kwargs):
+        return cls(**kwargs)
+
+    def apply_on_window(self, obs, cm_hist, cm_future, **kwargs):
+        if (cm_future == M_ERR).any():
+            raise ProbeError("marker in this window")
+        return cm_future + (obs.mean() - cm_hist.mean())
+
+
 def make(kind):
     return GridProbe() if kind == "deb" else GridProbeDC(delta_type="additive")
 
@@ -115,11 +130,14 @@ def start_method():
 
 # ------------------------------------------------------------------ running the real code
 def run_apply(deb, obs, hist, fut, parallel=False, nproc=1, failsafe=False, progressbar=False, **kw):
-    """real `apply`; returns ('ok', array) | ('error', exception class name, message)"""
+    """real `apply`; returns ('ok', array) | ('error', exception class name, message).  nproc=None: nr_processes is not passed
+    (the library default, 4)"""
+    if nproc is not None:
+        kw = {"nr_processes": nproc, **kw}
     with warnings.catch_warnings(), open(os.devnull, "w") as devnull, contextlib.redirect_stderr(devnull):  # tqdm writes to stderr
         warnings.simplefilter("ignore")
         try:
-            out = deb.apply(obs, hist, fut, progressbar=progressbar, parallel=parallel, nr_processes=nproc, failsafe=failsafe, **kw)
+            out = deb.apply(obs, hist, fut, progressbar=progressbar, parallel=parallel, failsafe=failsafe, **kw)
         except Exception as ex:  # noqa: BLE001
             return ("error", type(ex).__name__, safe_str(ex))
     return ("ok", out)
@@ -142,7 +160,9 @@ def canon(r):
 
 def stacked(deb, obs, hist, fut, out_T, dtype, **kw):
     """the property's right-hand side: apply_location on every cell's three columns alone, stacked.
-    returns (array | None, {cell: exception}) — cells that raise are left NaN"""
+    returns (array | None, {cell: exception}) — cells that raise are left NaN.
+    deb may be a factory (callable): then every cell gets a FRESH instance, so that nothing one cell leaves behind in the
+    instance can reach another cell's reference"""
     nx, ny = obs.shape[1:]
     ref = np.full((out_T, nx, ny), np.nan, dtype=dtype)
     errs = {}
@@ -151,7 +171,8 @@ def stacked(deb, obs, hist, fut, out_T, dtype, **kw):
         for i in range(nx):
             for j in range(ny):
                 try:
-                    ref[:, i, j] = deb.apply_location(obs[:, i, j].copy(), hist[:, i, j].copy(), fut[:, i, j].copy(), **kw)
+                    d = deb() if callable(deb) else deb
+                    ref[:, i, j] = d.apply_location(obs[:, i, j].copy(), hist[:, i, j].copy(), fut[:, i, j].copy(), **kw)
                 except Exception as ex:  # noqa: BLE001
                     errs[(i, j)] = ex
     return ref, errs
@@ -203,15 +224,44 @@ def real_debiasers():
 def more_debiasers():
     """name -> factory: the deterministic precipitation debiaser whose fit runs an optimiser (QuantileDeltaMapping pr: censored gamma,
     Nelder-Mead; fit + ppf only), and running-window debiasers that need the time arrays passed through apply(**kwargs)"""
-    from ibicus.debias import LinearScaling, QuantileDeltaMapping
+    from ibicus.debias import LinearScaling, QuantileDeltaMapping, QuantileMapping, ScaledDistributionMapping
 
     yoff = dict(running_window_mode=False, running_window_mode_over_years_of_cm_future=False)
     rw = dict(running_window_mode=True, running_window_length=31, running_window_step_length=7)
     return {
         "pr/QuantileDeltaMapping": lambda: QuantileDeltaMapping.from_variable("pr", **yoff),
+        "pr/ScaledDistributionMapping": lambda: ScaledDistributionMapping.from_variable("pr", running_window_mode=False),  # relative SDM, scipy gamma
+        "rw/QuantileMapping": lambda: QuantileMapping.from_variable("tas", **rw),
+        "rw/WindowProbe": lambda: WindowProbe(**rw),
         "rw/DeltaChange": lambda: DeltaChange.from_variable("tas", **rw),
         "rw/LinearScaling": lambda: LinearScaling.from_variable("tas", **rw),
     }
+
+
+LAYOUTS = ("C", "F", "stored[x,y,t]", "stored[y,x,t]", "strided")
+
+
+def relayout(a, kind):
+    """the same logical (t, x, y) array in another memory layout"""
+    if kind == "F":
+        out = np.asfortranarray(a)
+    elif kind == "stored[x,y,t]":  # e.g. netCDF [lat, lon, time] moved to time-first
+        out = np.ascontiguousarray(a.transpose(1, 2, 0)).transpose(2, 0, 1)
+    elif kind == "stored[y,x,t]":  # data stored [y, x, time] and passed as data.T
+        out = np.ascontiguousarray(a.transpose(2, 1, 0)).T
+    elif kind == "strided":
+        big = np.zeros((2 * a.shape[0], a.shape[1] + 1, 2 * a.shape[2]), dtype=a.dtype)
+        out = big[::2, 1:, ::2]
+        out[...] = a
+    else:
+        out = np.ascontiguousarray(a)
+    assert out.shape == a.shape and np.array_equal(out, a, equal_nan=True)
+    return out
+
+
+def snapshot(deb):
+    """the instance's attributes as text (settings and derived objects)"""
+    return {k: repr(v) for k, v in vars(deb).items()}
 
 
 def pr_grid(nprs, T, nx, ny, a, scale):
@@ -252,5 +302,10 @@ def unpack(d, prefix=""):
 def debiaser_for(case):
     what = str(case.get("what", ""))
     if "/" in what and what.split("/", 1)[0] in ("real", "builtin"):
-        return {**real_debiasers(), **more_debiasers()}[what.split("/", 1)[1]]()
+        name = what.split("/", 1)[1]
+        if name == "isimip/tas-windows":
+            from ibicus.debias import ISIMIP
+
+            return ISIMIP.from_variable("tas", running_window_step_length=31)
+        return {**real_debiasers(), **more_debiasers()}[name]()
     return make(case.get("kind", "deb"))
